@@ -183,10 +183,24 @@ def run(idx, rep, tier):
 
     # ------------------------------------------------------------------ R3
     _r3(idx, rep)
+    _r3_frozen(idx, rep)
     # ------------------------------------------------------------------ R4
     _r4(idx, rep)
     # ------------------------------------------------------------------ R5
     _r5(idx, rep)
+
+
+def _r3_frozen(idx, rep):
+    """Function.matches skips a component on a frozen path unless it overrides frozen: fail() and fail_all() must override, and the
+    two places that lift the freeze for a last()/fail() consequence must put back the state they found — otherwise a fail_and_stop()
+    (or any other component) standing after `last() -> …` on the final line is silently skipped and the verdict stays True"""
+    for cls in ("Fail", "FailAll"):
+        fr, ok, d = K.returns(idx, cls, "override_frozen", True)
+        rep.analysed(fr)
+        rep.check(ok, "R3", f"csvpath/matching/functions/validity/fail.py::{cls} runs on a frozen path",
+                  f"{cls}.override_frozen resolves to {fr.qual} and {d}: on a frozen path (final line after last() fired, blank last line) Function.matches skips the component, so the verdict is not set", K.where(fr, fr.node))
+    from . import c13
+    c13.frozen_checks(idx, rep, "R3")
 
 
 def _drop_atoms(f, pred):
@@ -328,6 +342,15 @@ def _r2_do_i_fail(idx, rep):
     rep.analysed(fi)
     ok, detail = do_i_table(idx, fi, "fail_on_validation_errors", "FAIL")
     rep.check(ok, "R2", f"{fi.file}::ErrorCommsManager.do_i_fail table", detail, K.where(fi, fi.node))
+    # … and 'the policy' is the csvpath's own errors policy whenever there is a csvpath (its 'fail' decides its verdict, not the group's)
+    fc = idx.method("ErrorCommsManager", "__init__")
+    rep.analysed(fc)
+    okp = True
+    for cp, cps, want in ((Obj("cp"), None, "cp.config.csvpath_errors_policy"), (None, Obj("cps"), "cps.config.csvpaths_errors_policy"), (Obj("cp"), Obj("cps"), "cp.config.csvpath_errors_policy")):
+        _, ps = K.sym_result(idx, "ErrorCommsManager", "__init__", args={"csvpath": cp, "csvpaths": cps})
+        pol = ps[0].final_store.get("self._policy") if len(ps) == 1 else None
+        okp = okp and isinstance(pol, Residual) and pol.text == want
+    rep.check(okp, "R2", f"{fc.file}::ErrorCommsManager.__init__ policy source", "the 'fail' token is looked up in a policy other than the owner's (the csvpath's when there is one)", K.where(fc, fc.node))
 
 
 def do_i_table(idx, fi, override_prop, member):
